@@ -28,6 +28,35 @@ def _is_source_value(e):
     return False
 
 
+def shared_mutable_rule(index, rep, rid, modules):
+    """no mutable default argument and no class-level mutable container mutated through instances"""
+    ndef = 0
+    for m in modules:
+        mod = index.module(m)
+        for f in index.functions_in_module(m):
+            a = f.node.args
+            for d in list(a.defaults) + [x for x in a.kw_defaults if x is not None]:
+                ndef += 1
+                mutable = isinstance(d, (ast.List, ast.Dict, ast.Set)) or (isinstance(d, ast.Call) and call_name(d) in ("list", "dict", "set", "OrderedDict", "defaultdict"))
+                rep.check(not mutable, rid, f.qualname, "mutable default " + norm(d)[:40], fn_where(f, d), "default `%s` of %s is immutable" % (norm(d)[:20], f.name),
+                          "%s has the mutable default argument `%s`: every object created with the default shares one container, so a change through one instance shows through all others" % (f.qualname, norm(d)[:40]))
+        for ci in [c for c in index.classes.values() if c.module is mod]:
+            for attr, val in ci.class_attrs.items():
+                mutable = isinstance(val, (ast.List, ast.Dict, ast.Set)) or (isinstance(val, ast.Call) and call_name(val) in ("list", "dict", "set") and isinstance(val.func, ast.Name))
+                if not mutable:
+                    continue
+                ndef += 1
+                mutated = []
+                for meth in ci.methods.values():
+                    for w in writes_in(meth.node):
+                        if w.attr == attr and isinstance(w.base, ast.Name) and w.base.id == "self" and w.kind in ("mutcall", "substore", "subdel", "augstore"):
+                            mutated.append((meth, w))
+                rebinds = any(w.attr == attr and w.kind == "store" for meth in ci.methods.values() if meth.name == "__init__" for w in writes_in(meth.node))
+                rep.check(not mutated or rebinds, rid, ci.qualname, "class-level %s mutated via self" % attr, "%s:%d" % (mod.relpath, ci.node.lineno), "class attribute %s.%s is not mutated through instances" % (ci.name, attr),
+                          "%s.%s is a class-level mutable container that %s mutates through `self` without an instance-level rebinding in __init__: all instances share it, so what one call (or one copy) stores is seen by the next" % (ci.qualname, attr, mutated[0][0].qualname if mutated else ""))
+    return ndef
+
+
 def canonical_locals(fi):
     """local name -> $n by order of first binding (source order)."""
     params = set(fi.all_params)
@@ -288,28 +317,5 @@ def run(index, rep, tier):
 
     # ---- R12.4
     with rep.section("R12.4"):
-        ndef = 0
-        for m in COPY_MODULES[:-1] + [DM + "datasetmodel"]:
-            mod = index.module(m)
-            for f in index.functions_in_module(m):
-                a = f.node.args
-                for d in list(a.defaults) + [x for x in a.kw_defaults if x is not None]:
-                    ndef += 1
-                    mutable = isinstance(d, (ast.List, ast.Dict, ast.Set)) or (isinstance(d, ast.Call) and call_name(d) in ("list", "dict", "set", "OrderedDict", "defaultdict"))
-                    rep.check(not mutable, "R12.4", f.qualname, "mutable default " + norm(d)[:40], fn_where(f, d), "default `%s` of %s is immutable" % (norm(d)[:20], f.name),
-                              "%s has the mutable default argument `%s`: every object created with the default shares one container, so a change through one instance shows through all others" % (f.qualname, norm(d)[:40]))
-            for ci in [c for c in index.classes.values() if c.module is mod]:
-                for attr, val in ci.class_attrs.items():
-                    mutable = isinstance(val, (ast.List, ast.Dict, ast.Set)) or (isinstance(val, ast.Call) and call_name(val) in ("list", "dict", "set") and isinstance(val.func, ast.Name))
-                    if not mutable:
-                        continue
-                    ndef += 1
-                    mutated = []
-                    for meth in ci.methods.values():
-                        for w in writes_in(meth.node):
-                            if w.attr == attr and isinstance(w.base, ast.Name) and w.base.id == "self" and w.kind in ("mutcall", "substore", "subdel", "augstore"):
-                                mutated.append((meth, w))
-                    rebinds = any(w.attr == attr and w.kind == "store" for meth in ci.methods.values() if meth.name == "__init__" for w in writes_in(meth.node))
-                    rep.check(not mutated or rebinds, "R12.4", ci.qualname, "class-level %s mutated via self" % attr, "%s:%d" % (mod.relpath, ci.node.lineno), "class attribute %s.%s is not mutated through instances" % (ci.name, attr),
-                              "%s.%s is a class-level mutable container that %s mutates through `self` without an instance-level rebinding in __init__: all instances (source and copies) share it" % (ci.qualname, attr, mutated[0][0].qualname if mutated else ""))
+        ndef = shared_mutable_rule(index, rep, "R12.4", COPY_MODULES[:-1] + [DM + "datasetmodel"])
         rep.floor("R12.4", "defaults and class-level containers examined", 200, ndef)
